@@ -11,11 +11,13 @@
     (MiOptions_mc.cfg) and on the environment strings recorded from the real allocator (OptsTrace.tla); nothing is
     computed outside TLC.
 
-  What is deliberately NOT demanded (kind "undemanded", see DESIGN section 8 item 4): the implementation recognises
-  the boolean keywords with strstr on "1;TRUE;YES;ON" / "0;FALSE;NO;OFF", so any substring (e.g. "N", "E;Y") is taken
-  as a boolean; for the two size options a value without digits but with a suffix ("K", "MIB") and a bare "IB"
-  suffix are accepted; strtol skips leading white space.  These upstream behaviours are neither required nor
-  forbidden by the property; generators avoid them and the trace specification adopts the observed value.
+  A value that is none of the documented forms is malformed and leaves the default in place: in particular parts of the
+  boolean keywords ("N", "RUE", "E;Y" -- upstream matched the keywords with strstr), a size suffix without digits ("KiB")
+  and values of more than 64 characters (upstream parsed their first 64 characters) -- these three were accepted by the
+  pinned tree and were repaired in /repo (see DESIGN.md 12.2).
+  What is deliberately NOT demanded (kind "undemanded"): a bare "IB" suffix behind the digits of a size option is accepted;
+  strtol skips leading white space.  These upstream behaviours are neither required nor forbidden by the property;
+  generators avoid them and the trace specification adopts the observed value.
  ***************************************************************************)
 EXTENDS Integers, Sequences, FiniteSets, TLC
 
@@ -156,11 +158,11 @@ PristineTable == [i \in Opts |-> [val |-> Z(OptTable[i].dflt), init |-> "UNINIT"
 
 \* ---------------------------------------------------------------------------------------------- environment lookup
 \* _mi_prim_getenv (unix, MI_USE_ENVIRON): the first entry of `environ` whose name equals the wanted name ignoring
-\* case; the value is copied with _mi_strlcpy into a 65-byte buffer: at most 64 characters survive.
+\* case; the value is copied with _mi_strlcpy into a 66-byte buffer (a value of more than 64 characters is noticed by Parse).
 NoVal == <<-1>>
 Lookup(e, nm) ==
   LET hits == {k \in 1..Len(e) : Len(e[k].name) = Len(nm) /\ Upper(e[k].name) = Upper(nm)} IN
-  IF hits = {} THEN NoVal ELSE Cut64(e[SetMin(hits)].val)
+  IF hits = {} THEN NoVal ELSE e[SetMin(hits)].val
 EnvValue(e, i) ==
   LET v == Lookup(e, EnvNames[i]) IN
   IF v # NoVal THEN v
@@ -210,11 +212,11 @@ Parse(kib, raw) ==
   LET u == Upper(Cut64(raw)) IN
   IF u = << >> \/ u \in OnWords THEN [kind |-> "bool", val |-> Z(1)]
   ELSE IF u \in OffWords THEN [kind |-> "bool", val |-> Z(0)]
-  ELSE IF IsSub(u, KwOn) \/ IsSub(u, KwOff) THEN [kind |-> "undemanded", val |-> Z(0)]
+  ELSE IF Len(raw) > 64 THEN [kind |-> "malformed", val |-> Z(0)]
   ELSE LET r == StrToL(u)
            c == IF kib THEN SizeConv(u, r) ELSE [val |-> r.val, end |-> r.end, bareib |-> FALSE]
-       IN IF c.end # Len(u) + 1 THEN [kind |-> "malformed", val |-> Z(0)]
-          ELSE IF r.nd = 0 \/ c.bareib \/ r.ws THEN [kind |-> "undemanded", val |-> Z(0)]
+       IN IF c.end # Len(u) + 1 \/ r.nd = 0 THEN [kind |-> "malformed", val |-> Z(0)]
+          ELSE IF c.bareib \/ r.ws THEN [kind |-> "undemanded", val |-> Z(0)]
           ELSE [kind |-> "num", val |-> c.val]
 
 \* ---------------------------------------------------------------------------------------------- operations on a table
@@ -348,15 +350,19 @@ MagnitudeStr == {"0", "00", "1", "2", "7", "9", "10", "42", "99", "100", "007", 
 SignStr == {"", "+", "-"}
 SuffixStr == {"", "K", "M", "G", "T", "KB", "MB", "GB", "TB", "KiB", "MiB", "GiB", "TiB", "B", "k", "m", "g", "t", "kb", "kib", "KIB", "mIb", "b"}
 JunkStr == {"x", "z", "q", "#", "?", "~", "xz", "Q!", "zzzzzzzz", "--", "+-", "-", "+", "x1", "1x", "12zz", "5 ", "1.5", "1e3", "0x10", "5KX", "5KiBx", "5Kz", "3GiBB", "5BB",
-            "5KK", "1,000", "5 K", "K5", "x;", "$(id)", "%s%s%n", "-q", "+1+", "1-"}
+            "5KK", "1,000", "5 K", "K5", "x;", "$(id)", "%s%s%n", "-q", "+1+", "1-",
+            "n", "N", "rue", "E;Y", "e;y", "ALS", "f", ";", "1;TRUE", "0;", "O", "es", "FF", ";ON",              \* parts of the keyword lists
+            "K", "KiB", "GiB", "T", "B", "mb", "-K", "+GiB"}                                                     \* a suffix without digits
+Z60 == "000000000000000000000000000000000000000000000000000000000000"
+LongStr == {Z60 \o "0025", Z60 \o "00025", Z60 \o "0025junk", Z60 \o "00000000true", Z60 \o "002K", Z60 \o "0002K", Z60 \o Z60 \o "7"}   \* 64 characters are a value, 65 are not
 NumFormsStr == Cat(SignStr, MagnitudeStr)
 SizeFormsStr == Cat(NumFormsStr, SuffixStr)
-AllFormsStr == BoolFormsStr \cup SizeFormsStr \cup JunkStr
+AllFormsStr == BoolFormsStr \cup SizeFormsStr \cup JunkStr \cup LongStr
 \* the part that the quick tier always runs: every boolean spelling, every junk form, and the arithmetic boundaries
 \* (rounding to KiB, LONG_MAX, 2^64, MI_MAX_ALLOC_SIZE) with the main suffixes; the rest is sampled (seeded)
 EdgeMagnitudeStr == {"0", "1", "1023", "1024", "1025", "2147483648", "281474976579584", "281474976579585", "274877906816", "274877906817",
                      "268435455", "268435456", "262143", "262144", "17179869183", "17179869184", "18014398509481983", "18014398509481984",
                      "9223372036854775807", "9223372036854775808", "18446744073709551615", "18446744073709551616", "99999999999999999999"}
 QuickSuffixStr == {"", "K", "M", "G", "T", "KiB", "GiB", "B", "mb", "x"}
-QuickFormsStr == BoolFormsStr \cup JunkStr \cup Cat(Cat({"", "-"}, EdgeMagnitudeStr), QuickSuffixStr)
+QuickFormsStr == BoolFormsStr \cup JunkStr \cup LongStr \cup Cat(Cat({"", "-"}, EdgeMagnitudeStr), QuickSuffixStr)
 =============================================================================
